@@ -30,8 +30,9 @@ RULE = (
     "subcontexts each with its own sub-program, set_context_type with freshly made fixeddict types at the start or in the middle "
     "of any context (top, nested, list element; sometimes a second type change), bounded_block with 0-13 trailing padding bits "
     "or cutting into the trailing 1-bits of its content, byte_align, computed_value (with or without a stale input value). "
-    "Each case runs the round trip (Serialiser or MonitoredSerialiser, context managers or explicit enter/leave calls, plain or "
-    "pre-typed input) and a random half of the negative variants: extra key in a random context, extra element in a random list, "
+    "Each case runs the round trip (Serialiser or MonitoredSerialiser, context managers or explicit enter/leave calls; input "
+    "contexts at set_context_type positions are plain dicts, instances of the declared type, or instances of a fresh proper "
+    "subclass of it - OrderedDict / a dict subclass where the declared type is dict itself) and a random half of the negative variants: extra key in a random context, extra element in a random list, "
     "missing key (without defaults / with a default under the right type plus decoys under other types / with decoys only), "
     "missing last list element (same three), target reuse by an inserted bool/nbits/declare_list/computed_value/subcontext "
     "(Serialiser and Deserialiser), unclosed subcontext / bounded block. distinct = distinct program; programs with fewer than "
@@ -45,6 +46,8 @@ ASSUMPTIONS = [
     "a missing key must raise KeyError (any subclass), a missing list element ListTargetExhaustedError; a default is looked up "
     "under type(current context) at the time of use: the type given to the last set_context_type in that context, else the type "
     "of the input dictionary",
+    "after set_context_type(T) the current context has exactly type T (type(x) is T), also when the supplied dictionary was an "
+    "instance of a subclass of T (the method's documentation: a context 'of a different type' is passed to T's constructor)",
     "after ReusedTargetError only the value stored by the first use is inspected (the rest of the state is unspecified)",
     "when both a subcontext and a bounded block are left open either Unclosed* error is accepted",
     "the Monitored* classes are exercised as SerDes implementations; their callbacks are counted, not judged",
@@ -106,19 +109,33 @@ def real():
 
 
 def make_types(R, spec):
-    return {name: R.fixeddict(name, *keys) for name, keys in sorted(spec.items())}
+    """keys None: the declared type is the builtin dict itself."""
+    return {name: (dict if keys is None else R.fixeddict(name, *keys)) for name, keys in sorted(spec.items())}
+
+
+def make_subclasses(types, rng):
+    """A fresh proper subclass of every declared type (for dict also OrderedDict)."""
+    import collections
+
+    out = {}
+    for name, T in sorted(types.items()):
+        if T is dict and rng.random() < 0.5:
+            out[name] = collections.OrderedDict
+        else:
+            out[name] = type(name + "Sub", (T,), {})
+    return out
 
 
 class Run(object):
     pass
 
 
-def do_ser(R, ops, model, types, pretype=None, defaults=None, monitored=False, explicit=False):
+def do_ser(R, ops, model, types, pretype=None, defaults=None, monitored=False, explicit=False, build_types=None):
     out = Run()
     out.err = None
     out.calls = 0
     out.stats = {}
-    ctx_in = SP.build_context(model, types, pretype, R.bitarray)
+    ctx_in = SP.build_context(model, build_types or types, pretype, R.bitarray)
     f = io.BytesIO()
     w = R.Writer(f)
     kw = {} if defaults is None else {"default_values": defaults}
@@ -215,10 +232,16 @@ def run_case(case, ctx):
     M = SP.ModelRun(prog, model)
     monitored = vr.random() < 0.3
     explicit = vr.random() < 0.5
-    pretyped = vr.random() < 0.3
+    # input contexts at set_context_type positions: plain dicts / already of the
+    # declared type / instances of a fresh proper subclass of the declared type
+    # (OrderedDict or a dict subclass where the declared type is dict)
+    input_mode = vr.choice(["plain"] * 5 + ["exact"] * 2 + ["subclass"] * 3)
+    pretyped = input_mode != "plain"
     pretype = M.first_types_at if pretyped else None
+    sub_types = make_subclasses(types, vr) if input_mode == "subclass" else None
+    build_types = sub_types
     size = SP.program_size(prog["ops"])
-    detail = {"program": prog, "model": model, "monitored": monitored, "explicit": explicit, "pretyped": pretyped}
+    detail = {"program": prog, "model": model, "monitored": monitored, "explicit": explicit, "input_mode": input_mode}
 
     def vio(sig, what):
         ctx.violation(sig, what, detail=detail)
@@ -243,7 +266,7 @@ def run_case(case, ctx):
         ctx.sample({"program": prog, "model": model})
 
     # ---------------------------------------------------------------- round trip
-    ser = do_ser(R, prog["ops"], model, types, pretype, None, monitored, explicit)
+    ser = do_ser(R, prog["ops"], model, types, pretype, None, monitored, explicit, build_types)
     ctx.count("set_context_type_calls", ser.stats.get("set_type", 0))
     ctx.count("set_context_type_in_list_element", ser.stats.get("set_type_in_list", 0))
     ctx.count("monitor_callbacks", ser.calls)
@@ -269,8 +292,15 @@ def run_case(case, ctx):
     if des.reader.tell() != M.bits.tell():
         vio("roundtrip:deserialiser-position", "deserialiser stopped at %r, model %r" % (des.reader.tell(), M.bits.tell()))
     ctx.count("roundtrips_ok")
-    if pretyped:
+    if input_mode == "exact":
         ctx.count("roundtrips_pretyped_input")
+    if input_mode == "subclass" and M.first_types_at:
+        ctx.count("roundtrips_subclass_input")
+        for pth, tn in M.first_types_at.items():
+            ctx.count("subclass_input_contexts:" + where_of(pth))
+            if types[tn] is dict:
+                ctx.count("subclass_input_contexts_declared_dict")
+                ctx.note("dict_subclasses_supplied", sub_types[tn].__name__ if sub_types[tn].__name__ == "OrderedDict" else "fresh dict subclass")
 
     # ----------------------------------------------------------- negative variants
     def expect_error(run, classes, variant, where):
@@ -308,7 +338,7 @@ def run_case(case, ctx):
         extra = vr.choice([1, 1, None, {}, {"zz_extra": 2}, [], [0], b"x", {"__ba": "01"}])
         SP.node_at(m2, fr.path)["zz_extra"] = extra
         ctx.count("extra_key_value:" + ("scalar" if not isinstance(extra, (dict, list)) else type(extra).__name__))
-        run = do_ser(R, prog["ops"], m2, types, pretype, None, False, explicit)
+        run = do_ser(R, prog["ops"], m2, types, pretype, None, False, explicit, build_types)
         expect_error(run, E.UnusedTargetError, "extra-key", where_of(fr.path))
 
     # B: extra list element
@@ -322,12 +352,15 @@ def run_case(case, ctx):
             lst.append(SP.clone(lst[-1]))
         else:
             lst.append({} if t.startswith("sl") else 0)
-        run = do_ser(R, prog["ops"], m2, types, pretype, None, False, explicit)
+        run = do_ser(R, prog["ops"], m2, types, pretype, None, False, explicit, build_types)
         expect_error(run, E.UnusedTargetError, "extra-list-element", where_of(fr.path))
 
     def cur_type(fr, tname):
-        name = tname if tname is not None else (fr.first_type if pretyped else None)
-        return dict if name is None else types[name]
+        if tname is not None:
+            return types[tname]  # exactly the declared type after set_context_type
+        if pretyped and fr.first_type is not None:
+            return (sub_types or types)[fr.first_type]  # the type of the supplied dictionary
+        return dict
 
     def decoys(right, target, kind, arg, orig):
         out = {}
@@ -344,14 +377,14 @@ def run_case(case, ctx):
         right = cur_type(fr, tname)
         where = where_of(fr.path)
         if mode == 0:
-            run = do_ser(R, prog["ops"], m2, types, pretype, None, False, explicit)
+            run = do_ser(R, prog["ops"], m2, types, pretype, None, False, explicit, build_types)
             expect_error(run, err_classes, variant, where)
             return
         if mode == 2:
             dv = decoys(right, target, kind, arg, orig)
             if vr.random() < 0.5:
                 dv[right] = {"zz_other": 1}
-            run = do_ser(R, prog["ops"], m2, types, pretype, dv, False, explicit)
+            run = do_ser(R, prog["ops"], m2, types, pretype, dv, False, explicit, build_types)
             expect_error(run, err_classes, variant + "-default-for-other-type", where)
             return
         # inside a bounded block the content may run past the end, where only
@@ -361,7 +394,7 @@ def run_case(case, ctx):
         dv[right] = {target: SP.build_context(dval, ba=R.bitarray), "zz_other": 3}
         name = variant + "-with-default"
         ctx.count("neg:" + name)
-        run = do_ser(R, prog["ops"], m2, types, pretype, dv, False, explicit)
+        run = do_ser(R, prog["ops"], m2, types, pretype, dv, False, explicit, build_types)
         if run.err is not None:
             if isinstance(run.err, SP.TreeInconsistent):
                 vio("tree:%s:%s" % (run.err.kind, name), str(run.err))
@@ -385,6 +418,8 @@ def run_case(case, ctx):
         ctx.count("neg_ok:" + name)
         ctx.count("defaults_used")
         ctx.count("defaults_used_where:" + where)
+        if input_mode == "subclass" and fr.first_type is not None:
+            ctx.count("defaults_used_subclass_input" + (":after-set-type" if tname is not None else ":before-set-type"))
 
     # C: missing key
     cands = [(f, p) for f in frames for p in f.prims if p[3] is None]
@@ -440,7 +475,7 @@ def run_case(case, ctx):
         where = where_of(fr.path)
         exp_node = SP.node_at(M.expected, fr.path)
         vpath = fr.path + ((t, None),)
-        run = do_ser(R, p2["ops"], model, types, pretype, None, False, explicit)
+        run = do_ser(R, p2["ops"], model, types, pretype, None, False, explicit, build_types)
         if expect_error(run, E.ReusedTargetError, "reuse-serialiser-" + how, where):
             try:
                 got = SP.node_at(run.serdes.context, fr.path)[t]
@@ -481,7 +516,7 @@ def run_case(case, ctx):
         ops2 = SP.clone(prog["ops"]) + tail
         side = vr.random() < 0.5
         if side:
-            run = do_ser(R, ops2, model, types, pretype, None, False, explicit)
+            run = do_ser(R, ops2, model, types, pretype, None, False, explicit, build_types)
         else:
             run = do_des(R, ops2, ser.data, types, False, explicit)
         expect_error(run, classes, name + ("-serialiser" if side else "-deserialiser"), shape)
@@ -531,7 +566,15 @@ def floor(agg, tier):
 
     need("programs", 40000 if q else 2000000)
     need("roundtrips_ok", 40000 if q else 2000000)
-    need("roundtrips_pretyped_input", 5000)
+    need("roundtrips_pretyped_input", 3000)
+    need("roundtrips_subclass_input", 5000)
+    for w in ("top", "nested", "list-element"):
+        need("subclass_input_contexts:" + w, 1500)
+    need("subclass_input_contexts_declared_dict", 500)
+    need("defaults_used_subclass_input:after-set-type", 100)
+    need("defaults_used_subclass_input:before-set-type", 20)
+    if len(agg["sets"].get("dict_subclasses_supplied", ())) < 2:
+        miss.append("OrderedDict and a fresh dict subclass were not both supplied where dict is declared")
     for k in OP_STRATA:
         need("programs_with:" + k, 2000)
     need("set_context_type_calls", 20000)
